@@ -423,6 +423,8 @@ def crossfile_specs(rng):
                      {"name": pool[2], "kind": "struct", "derives": ["Serialize", "Deserialize"], "file": variant % nfiles},
                      {"name": pool[3], "kind": "enum", "derives": ["Serialize"], "file": (variant + 1) % nfiles}]
             edges = [[0, 1, rng.choice(CLEAN_FIELD)], [2, 3, "direct"]]
+            if how == "event" and variant < 2:      # without a child the event roots stay outside class C07-4
+                edges = edges[1:]
             fn = {"name": "emit_it" if how == "event" else "use_it", "file": 0, "roots": [[how, 0, ctx]]}
             other = {"name": "other_cmd", "file": variant % nfiles, "roots": [["param", 2, "direct"]]}
             cmds, helpers = ([fn, other], []) if where == "cmd" else ([other], [fn])
